@@ -276,3 +276,71 @@ Qed.
 (* the subgraphs are left alone *)
 Lemma add_pass_tail m : tl (fst (add_pass m)) = tl m.
 Proof. destruct m; reflexivity. Qed.
+
+(* ====================================================================== flag exactness, other direction:
+   a pass that leaves the model state as it was reports modified=False (so True => something observable changed) *)
+Lemma map_fix_inv {A} (f : A -> A) : forall l, map f l = l -> Forall (fun x => f x = x) l.
+Proof.
+  induction l as [|a l IH]; simpl; intros H; [constructor|].
+  injection H as Ha Hl. constructor; [exact Ha | apply IH; exact Hl].
+Qed.
+
+Lemma all_false_clean (l : list (bool * bool)) :
+  map (fun _ => (false, false)) l = l -> existsb (fun n => fst n || snd n) l = false.
+Proof.
+  induction l as [|[a b] l IH]; simpl; intros E; [reflexivity|].
+  injection E as Ea Eb El. subst a b. simpl. apply IH. exact El.
+Qed.
+
+Lemma clear_graph_complete g : fst (clear_graph g) = g -> snd (clear_graph g) = false.
+Proof.
+  destruct g as [gm gd ns]. unfold clear_graph, clear_state. cbn [cg_nodes cg_meta cg_doc fst snd].
+  destruct ns as [|n ns]; [reflexivity|]. intros H. injection H as Hm Hd Hn Hns.
+  assert (Hall : map (fun _ : bool * bool => (false, false)) (n :: ns) = n :: ns) by (simpl; f_equal; [exact Hn | exact Hns]).
+  rewrite (all_false_clean (n :: ns) Hall). simpl.
+  destruct (gm || gd) eqn:D; [|apply orb_false_iff in D; destruct D; subst; reflexivity].
+  subst gm gd. discriminate.
+Qed.
+
+Lemma clear_flag_complete m : fst (clear_pass m) = m -> snd (clear_pass m) = false.
+Proof.
+  unfold clear_pass. cbn [fst snd]. intros H. apply map_fix_inv in H.
+  induction m as [|g m IH]; [reflexivity|]. inversion H; subst. cbn [existsb].
+  rewrite (clear_graph_complete g) by assumption. simpl. apply IH. assumption.
+Qed.
+
+Lemma dce_flag_complete g : fst (dce g) = g -> snd (dce g) = false.
+Proof.
+  intros H. destruct (snd (dce g)) eqn:F; [|reflexivity].
+  apply dce_measure in F. rewrite H in F. lia.
+Qed.
+
+Lemma topo_flag_complete sort m : fst (topo_pass sort m) = m -> snd (topo_pass sort m) = false.
+Proof.
+  unfold topo_pass. simpl. intros H. apply negb_false_iff. apply tmodel_eqb_eq. symmetry. exact H.
+Qed.
+
+Lemma add_pass_flag_complete m : fst (add_pass m) = m -> snd (add_pass m) = false.
+Proof.
+  destruct m as [|[ins inits] rest]; [reflexivity|]. unfold add_pass.
+  destruct (add_inits (ins, inits)) as [[ins' inits'] c] eqn:E. unfold add_inits in E. injection E as E1 E2 E3.
+  cbn [fst snd]. intros H. injection H as Hi Hn. subst ins' c.
+  apply (f_equal (@length positive)) in Hi. rewrite app_length in Hi.
+  apply negb_false_iff. apply Nat.eqb_eq. lia.
+Qed.
+
+Lemma rm_inits_fix g : fst (rm_inits g) = g -> snd (rm_inits g) = 0.
+Proof.
+  destruct g as [ins inits]. unfold rm_inits. cbn [fst snd]. intros H. injection H as Hk. rewrite Hk. lia.
+Qed.
+
+Lemma rm_pass_flag_complete m : fst (rm_pass m) = m -> snd (rm_pass m) = false.
+Proof.
+  unfold rm_pass, io_pass. cbn [fst snd]. intros H. apply map_fix_inv in H.
+  apply negb_false_iff. apply Nat.eqb_eq.
+  assert (Z0 : Forall (fun x => x = 0) (map (fun g => snd (rm_inits g)) m)).
+  { induction m as [|g m IH]; [constructor|]. inversion H as [|? ? Hg Hm]; subst. cbn [map].
+    constructor; [apply rm_inits_fix; exact Hg | apply IH; exact Hm]. }
+  clear H. induction (map (fun g => snd (rm_inits g)) m) as [|x l IH]; [reflexivity|].
+  inversion Z0; subst. simpl. apply IH. assumption.
+Qed.
